@@ -358,7 +358,7 @@ func num(s string, width int) (int64, bool) {
 // independently of package time. ok=false: the oracle does not model this
 // (layout,text) pair.
 //
-//	"2006-01-02", "2006-01-02 15:04:05", "02/01/2006", "2006-01-02T15:04:05Z07:00"
+//	"2006-01-02", "2006-01-02 15:04:05", "02/01/2006", "01/02/2006", "2006-02-01", "2006-01-02T15:04:05Z07:00"
 func ParseCivil(layout, s string) (unix int64, valid bool, modelled bool) {
 	var y, mo, d, h, mi, se, off int64
 	var ok [6]bool
@@ -388,6 +388,22 @@ func ParseCivil(layout, s string) (unix int64, valid bool, modelled bool) {
 		d, ok[2] = num(s[0:2], 2)
 		mo, ok[1] = num(s[3:5], 2)
 		y, ok[0] = num(s[6:10], 4)
+		ok[3], ok[4], ok[5] = true, true, true
+	case "01/02/2006":
+		if len(s) != 10 || s[2] != '/' || s[5] != '/' {
+			return 0, false, true
+		}
+		mo, ok[1] = num(s[0:2], 2)
+		d, ok[2] = num(s[3:5], 2)
+		y, ok[0] = num(s[6:10], 4)
+		ok[3], ok[4], ok[5] = true, true, true
+	case "2006-02-01":
+		if len(s) != 10 || s[4] != '-' || s[7] != '-' {
+			return 0, false, true
+		}
+		y, ok[0] = num(s[0:4], 4)
+		d, ok[2] = num(s[5:7], 2)
+		mo, ok[1] = num(s[8:10], 2)
 		ok[3], ok[4], ok[5] = true, true, true
 	case "2006-01-02T15:04:05Z07:00":
 		if len(s) != 20 && len(s) != 25 {
